@@ -60,7 +60,7 @@ func runC02(c *ev.Ctx) {
 	}
 	c.RunCases(cases, 0, func(cs ev.Case) { c02One(c, cs, pc) })
 	c.Extra("pairwise", pc.report())
-	if c.Thorough() && c.Only < 0 && getenvInt("VERIF_C02_BIG", 1) == 1 {
+	if c.Only < 0 && getenvInt("VERIF_C02_BIG", 1) == 1 {
 		c02BigPartition(c, len(cases))
 	}
 }
@@ -281,49 +281,70 @@ func cmpYCbCrGo(a, b *image.YCbCr) string {
 	return ""
 }
 
-// c02BigPartition drives the size-driven corner: a busy ~85-megapixel picture whose first
-// partition exceeds the 19-bit length field of the VP8 frame tag. Encode must either fail or
-// emit a decodable file.
+// c02BigPartition drives the size-driven corner: a picture whose first partition (mode data) comes close
+// to / passes the 19-bit length field of the VP8 frame tag (photo-like content at Method 4 costs ~5.4 bytes of
+// mode data per macroblock, so ~5000x5000 pixels). Encode must either fail or emit a file that is
+// structurally valid, decodable by every decoder, with decoders agreeing.
 func c02BigPartition(c *ev.Ctx, idx int) {
-	const side = 10400 // ~422 000 macroblocks: the first partition passes 2^19 bytes (measured: ~700 KB)
-	cs := ev.Case{Idx: idx, Desc: fmt.Sprintf("noise %dx%d lossy Q100 M0 (first partition > 2^19 bytes)", side, side)}
-	m := image.NewNRGBA(image.Rect(0, 0, side, side))
-	s := uint64(c.Seed)*2862933555777941757 + 3037000493
-	for i := 0; i < len(m.Pix); i += 8 {
-		s = s*6364136223846793005 + 1442695040888963407
-		v := s
-		for k := 0; k < 8; k++ {
-			m.Pix[i+k] = byte(v)
-			v >>= 8
+	for k, side := range []int{4800, 5800} {
+		cs := ev.Case{Idx: idx + k, Desc: fmt.Sprintf("photo %dx%d lossy Q100 M4 (first partition near/over 2^19 bytes)", side, side)}
+		m := img.Gen(rng(c, 0), "photo", "opaque", side, side)
+		o := webp.DefaultOptions()
+		o.Quality = 100
+		o.Method = 4
+		data, err := encode(m, o)
+		c.Eval(1)
+		c.Count("big_partition_cases", 1)
+		c.Distinct(fmt.Sprintf("bigpart|%d", side))
+		if err != nil {
+			c.Count("big_partition_encode_refused", 1)
+			c.Extra(fmt.Sprintf("big_partition_case_%d", side), map[string]any{"case": cs.Desc, "result": "Encode returned error: " + err.Error()})
+			continue
 		}
-		m.Pix[i+3], m.Pix[i+7] = 255, 255
-	}
-	o := webp.DefaultOptions()
-	o.Quality = 100
-	o.Method = 0
-	data, err := encode(m, o)
-	c.Eval(1)
-	c.Count("big_partition_cases", 1)
-	if err != nil {
-		c.Count("big_partition_encode_refused", 1)
-		c.Extra("big_partition_case", map[string]any{"case": cs.Desc, "result": "Encode returned error: " + err.Error()})
-		return
-	}
-	rep := func() any { return map[string]string{"generator": cs.Desc} }
-	info, issues := riffwalk.Walk(data)
-	for _, is := range issues {
-		c.Violate(cs, "structure/"+is.Rule, map[string]string{"rule": is.Rule, "big": "1"}, is.Msg, rep())
-	}
-	if info != nil && len(info.Frames) == 1 && info.Frames[0].BS != nil {
-		c.Extra("big_partition_case", map[string]any{"case": cs.Desc, "bytes": len(data), "part0_field": info.Frames[0].BS.Part0Len})
-	}
-	if _, err := webp.DecodeConfig(bytes.NewReader(data)); err != nil {
-		c.Violate(cs, "undecodable-by-package", map[string]string{"big": "1"}, "DecodeConfig: "+err.Error(), rep())
-	}
-	if _, err := decode(data); err != nil {
-		c.Violate(cs, "undecodable-by-package", map[string]string{"big": "1"}, "webp.Decode rejects Encode's output: "+err.Error(), rep())
-	}
-	if _, e := lw.DecodeYUV(data, false); e != nil {
-		c.Violate(cs, "undecodable-by-libwebp", map[string]string{"big": "1"}, e.Error(), rep())
+		rep := func() any { return map[string]string{"generator": cs.Desc} }
+		info, issues := riffwalk.Walk(data)
+		for _, is := range issues {
+			c.Violate(cs, "structure/"+is.Rule, map[string]string{"rule": is.Rule, "big": "1"}, is.Msg, rep())
+		}
+		if info == nil || len(info.Frames) != 1 || info.Frames[0].BS == nil {
+			continue
+		}
+		bs := info.Frames[0].BS
+		c.Extra(fmt.Sprintf("big_partition_case_%d", side), map[string]any{"case": cs.Desc, "bytes": len(data), "part0_field": bs.Part0Len})
+		// the 19-bit field cannot say more than 2^19-1; a truncated value shows as a first partition that
+		// is far too small for the number of macroblocks (every macroblock costs at least one bit of mode data)
+		if mbs := ((side + 15) / 16) * ((side + 15) / 16); bs.Part0Len*8 < mbs {
+			c.Violate(cs, "structure/vp8-part0", map[string]string{"big": "1"}, fmt.Sprintf("first partition field %d bytes for %d macroblocks: length field wrapped", bs.Part0Len, mbs), rep())
+		}
+		d, err := decode(data)
+		if err != nil {
+			c.Violate(cs, "undecodable-by-package", map[string]string{"big": "1"}, "webp.Decode rejects Encode's output: "+err.Error(), rep())
+			continue
+		}
+		ly, e := lw.DecodeYUV(data, false)
+		if e != nil {
+			c.Violate(cs, "undecodable-by-libwebp", map[string]string{"big": "1"}, e.Error(), rep())
+			continue
+		}
+		if yc, ok := d.(*image.YCbCr); !ok {
+			c.Violate(cs, "wrong-image-type", map[string]string{"big": "1"}, fmt.Sprintf("%T", d), rep())
+		} else if msg := cmpYCbCr(yc, ly); msg != "" {
+			c.Violate(cs, "decoders-disagree", map[string]string{"big": "1", "what": "planes"}, msg, rep())
+		} else {
+			// sanity of the picture itself: Q100 must be close to the source (a wrapped length field decodes to noise)
+			var se, n float64
+			for y := 0; y < side; y += 7 {
+				for x := 0; x < side; x += 5 {
+					r0, g0, b0, _ := m.At(x, y).RGBA()
+					yy := float64(19595*(r0>>8)+38470*(g0>>8)+7471*(b0>>8)) / 65536
+					dv := float64(yc.Y[yc.YOffset(x, y)]) - (16 + yy*219/255)
+					se += dv * dv
+					n++
+				}
+			}
+			if mse := se / n; mse > 400 {
+				c.Violate(cs, "decoded-picture-unrelated-to-source", map[string]string{"big": "1"}, fmt.Sprintf("luma MSE %.0f against the source at Quality 100", mse), rep())
+			}
+		}
 	}
 }
